@@ -10,6 +10,7 @@ global size_of usize == 8;
 
 //@include prelude/inc_pwl_core.rs
 //@include prelude/lp_oracle_spec.rs
+//@include prelude/reach_spec.rs
 
 impl<N, const K: usize> Tree<N, K> {
 // as in unit pwl_compose_pruned: contract of unit tree_graph minus the arena-size precondition (assumed: fewer than 2^31 nodes)
@@ -26,7 +27,7 @@ pub fn remove_child(&mut self, parent: TreeIndex, label: Label) -> (r: N)
 }
 
 impl<const K: usize> AffTree<K> {
-// contract proved in unit pwl_feasible on the real body (root shortcut; verdicts only from Infeasible evidence); the LP layer behind it stays an oracle
+// contract proved in unit pwl_feasible on the real body INCLUDING the construction of the path polytope (binary trees)
 //@assumed units/pwl_feasible.rs | is_edge_feasible
 //@assumed units/pwl_compose_pruned.rs | update_node
 }
@@ -34,8 +35,11 @@ impl<const K: usize> AffTree<K> {
 // generate_infeasible!("infeasible"): the explore of the arithmetic schemas (rule M1)
 //@fn src/pwl/impl_ops.rs | macro generate_infeasible | explore | as=arith_explore | nth=0
 //@spec
-    requires context.tree.wf(), parent != 0 ==> context.a().dom().contains(child) && context.a()[child].parent == Some(parent)
+    requires k_two::<K>(), context.tree.wf(), context.tree.root is Some, shape_op(context.a(), context.in_dim),
+        parent != 0 ==> context.a().dom().contains(child) && context.a()[child].parent == Some(parent)
     ensures parent == 0 ==> r
+//@hint start
+        proof { reveal(shape_op); reveal(k_two); }
 //@end
 
 // node-level contracts of the four arithmetic schemas, proved in unit pwl_schema
@@ -102,7 +106,7 @@ impl<const K: usize> AffTree<K> {
 //@bodysub let child0 = edg.target_value; => let child0 = &lhs.tree.tree_node(child0_idx).unwrap().value;
 //@bodysub lhs.tree.is_leaf(child0_idx).unwrap() => lhs.tree.tree_node(child0_idx).unwrap().isleaf
 //@spec
-    requires K >= 2, K < usize::MAX,
+    requires K >= 2, K < usize::MAX, k_two::<K>(),      // K == 2 (opaque here)
         lhs.tree.wf(), lhs.tree.root is Some, aff_shape_ok(lhs.a(), lhs.in_dim),
         old(rhs).tree.wf(), old(rhs).tree.root == Some(0usize), aff_shape_ok(old(rhs).a(), old(rhs).in_dim),
         // both operands live on the same input space and produce vectors of the same length
@@ -118,7 +122,7 @@ impl<const K: usize> AffTree<K> {
         proof { lemma_pr_outer_init(lhs.a(), rhs.a(), terminals@, od); }
 //@loop 1
             invariant
-                K >= 2, K < usize::MAX, lhs.tree.wf(), lhs.tree.root is Some, aff_shape_ok(lhs.a(), lhs.in_dim),
+                K >= 2, K < usize::MAX, k_two::<K>(), lhs.tree.wf(), lhs.tree.root is Some, aff_shape_ok(lhs.a(), lhs.in_dim),
                 terminals_ok(old(rhs).a(), terminals@, od),
                 0 <= __t <= terminals@.len(), rl == lhs.tree.root.unwrap(), lhs.in_dim == rhs.in_dim, out_all(lhs.a(), od),
                 rhs.tree.wf(), rhs.tree.root == Some(0usize), rhs.in_dim == old(rhs).in_dim, aff_shape_ok(rhs.a(), rhs.in_dim),
@@ -132,16 +136,18 @@ impl<const K: usize> AffTree<K> {
             proof {
                 broadcast use axiom_array2_shape;
                 lemma_pr_start(lhs.a(), a_start, rhs.a(), rl, terminal_idx, rhs.in_dim);
+                lemma_shape_write(a_start, rhs.a(), rhs.in_dim, terminal_idx);
             }
 //@loop 2
                 invariant
-                    K >= 2, K < usize::MAX, lhs.tree.wf(), lhs.tree.root is Some, aff_shape_ok(lhs.a(), lhs.in_dim),
+                    K >= 2, K < usize::MAX, k_two::<K>(), lhs.tree.wf(), lhs.tree.root is Some, aff_shape_ok(lhs.a(), lhs.in_dim),
                 terminals_ok(old(rhs).a(), terminals@, od),
                     0 < __t <= terminals@.len(), terminal_idx == terminals@[__t - 1], rl == lhs.tree.root.unwrap(),
                     rhs.tree.wf(), rhs.tree.root == Some(0usize), rhs.in_dim == old(rhs).in_dim,
                     aff_shape_ok(a_start, rhs.in_dim), pr_outer(lhs.a(), old(rhs).a(), a_start, terminals@, __t - 1),
                     terminal_aff.ok(), terminal_aff.mat.ncols() == rhs.in_dim, terminal_aff.mat.nrows() == od, lhs.in_dim == rhs.in_dim, out_all(lhs.a(), od),
                     pr_inv(lhs.a(), rhs.a(), a_start, kind, pend, None, terminal_idx, rhs.in_dim), pr_stack(kind, pend, stack@),
+                    shape_op(rhs.a(), rhs.in_dim),
                 ensures stack@.len() == 0,
 //@hint loop 2 start
                 proof {
@@ -150,10 +156,12 @@ impl<const K: usize> AffTree<K> {
                     lemma_kid_seq_len(lhs.a()[parent0_idx].children, 0);
                     lemma_kid_seq_members(lhs.a()[parent0_idx].children, 0);
                     lemma_count_zero_no_kids(rhs.a()[parent1_idx], 0);
+                    if !no_kids(lhs.a()[parent0_idx]) { lemma_rows_fit(lhs.a(), lhs.in_dim, parent0_idx, rhs.a()[parent1_idx].value.aff.mat.nrows() as int); }
                 }
+                let ghost p1_val = rhs.a()[parent1_idx].value;
 //@loop 3
                     invariant
-                        K >= 2, K < usize::MAX, lhs.tree.wf(), lhs.tree.root is Some, aff_shape_ok(lhs.a(), lhs.in_dim),
+                        K >= 2, K < usize::MAX, k_two::<K>(), lhs.tree.wf(), lhs.tree.root is Some, aff_shape_ok(lhs.a(), lhs.in_dim),
                 terminals_ok(old(rhs).a(), terminals@, od),
                         0 < __t <= terminals@.len(), terminal_idx == terminals@[__t - 1], rl == lhs.tree.root.unwrap(),
                     rhs.tree.wf(), rhs.tree.root == Some(0usize), rhs.in_dim == old(rhs).in_dim,
@@ -161,6 +169,7 @@ impl<const K: usize> AffTree<K> {
                     terminal_aff.ok(), terminal_aff.mat.ncols() == rhs.in_dim, terminal_aff.mat.nrows() == od, lhs.in_dim == rhs.in_dim, out_all(lhs.a(), od),
                         pr_inv(lhs.a(), rhs.a(), a_start, kind, pend, Some(parent1_idx), terminal_idx, rhs.in_dim), pr_stack(kind, pend, stack@),
                         kind.dom().contains(parent1_idx), kind[parent1_idx] == parent0_idx, !pend.contains(parent1_idx),
+                        shape_op(rhs.a(), rhs.in_dim), rhs.a()[parent1_idx].value == p1_val, !no_kids(lhs.a()[parent0_idx]) ==> rows_fit::<K>(p1_val.aff.mat.nrows() as int),
                         lhs.a().dom().contains(parent0_idx), rhs.a().dom().contains(parent1_idx),
                         0 <= __i <= __kids@.len(), __kids@.len() == kid_seq(lhs.a()[parent0_idx].children, 0).len(), __kids@.len() <= K,
                         n_children0 == __kids@.len(),
@@ -191,6 +200,8 @@ impl<const K: usize> AffTree<K> {
                         }
                         assert(a_add[parent1_idx].children[label as int] == Some(child1_idx)) by { assert(a_add[parent1_idx].children@[label as int] == Some(child1_idx)); }
                         lemma_count_set(a_pre[parent1_idx].children, a_add[parent1_idx].children, label as int, 0);
+                        // the tree handed to the feasibility test is shape-consistent (needed by the real path polytope)
+                        lemma_shape_add(a_pre, a_add, rhs.in_dim, parent1_idx, label, child1_idx);
                     }
 //@hint after label_created = Some(label);
                         proof {
@@ -207,6 +218,7 @@ impl<const K: usize> AffTree<K> {
 //@hint after rhs.tree .merge_child_with_parent(parent1_idx, label_created.unwrap()) .unwrap();
                     proof {
                         lemma_pr_merge(lhs.a(), a_fin, rhs.a(), a_start, kind, pend, terminal_idx, rhs.in_dim, stack@, parent1_idx, label_created.unwrap(), Some(0usize));
+                        lemma_shape_merge(a_fin, rhs.a(), rhs.in_dim, parent1_idx, label_created.unwrap());
                         kind = kind.remove(parent1_idx);
                     }
 //@hint loop 3 after
@@ -238,7 +250,7 @@ impl<const K: usize> AffTree<K> {
 //@bodysub AffTree::<K>::generic_composition_inplace( => AffTree::<K>::gci_add(
 //@bodysub terminals, $name {}, NoOpVis {} => terminals, Ghost(od)
 //@spec
-    requires K >= 2, K < usize::MAX,
+    requires K >= 2, K < usize::MAX, k_two::<K>(),      // K == 2 (opaque here)
         rhs.tree.wf(), rhs.tree.root is Some, aff_shape_ok(rhs.a(), rhs.in_dim),
         self.tree.wf(), self.tree.root == Some(0usize), aff_shape_ok(self.a(), self.in_dim),
         self.in_dim == rhs.in_dim, out_all(self.a(), od), out_all(rhs.a(), od),
@@ -274,7 +286,7 @@ impl<const K: usize> AffTree<K> {
 //@bodysub let child0 = edg.target_value; => let child0 = &lhs.tree.tree_node(child0_idx).unwrap().value;
 //@bodysub lhs.tree.is_leaf(child0_idx).unwrap() => lhs.tree.tree_node(child0_idx).unwrap().isleaf
 //@spec
-    requires K >= 2, K < usize::MAX,
+    requires K >= 2, K < usize::MAX, k_two::<K>(),      // K == 2 (opaque here)
         lhs.tree.wf(), lhs.tree.root is Some, aff_shape_ok(lhs.a(), lhs.in_dim),
         old(rhs).tree.wf(), old(rhs).tree.root == Some(0usize), aff_shape_ok(old(rhs).a(), old(rhs).in_dim),
         // both operands live on the same input space and produce vectors of the same length
@@ -290,7 +302,7 @@ impl<const K: usize> AffTree<K> {
         proof { lemma_pr_outer_init(lhs.a(), rhs.a(), terminals@, od); }
 //@loop 1
             invariant
-                K >= 2, K < usize::MAX, lhs.tree.wf(), lhs.tree.root is Some, aff_shape_ok(lhs.a(), lhs.in_dim),
+                K >= 2, K < usize::MAX, k_two::<K>(), lhs.tree.wf(), lhs.tree.root is Some, aff_shape_ok(lhs.a(), lhs.in_dim),
                 terminals_ok(old(rhs).a(), terminals@, od),
                 0 <= __t <= terminals@.len(), rl == lhs.tree.root.unwrap(), lhs.in_dim == rhs.in_dim, out_all(lhs.a(), od),
                 rhs.tree.wf(), rhs.tree.root == Some(0usize), rhs.in_dim == old(rhs).in_dim, aff_shape_ok(rhs.a(), rhs.in_dim),
@@ -304,16 +316,18 @@ impl<const K: usize> AffTree<K> {
             proof {
                 broadcast use axiom_array2_shape;
                 lemma_pr_start(lhs.a(), a_start, rhs.a(), rl, terminal_idx, rhs.in_dim);
+                lemma_shape_write(a_start, rhs.a(), rhs.in_dim, terminal_idx);
             }
 //@loop 2
                 invariant
-                    K >= 2, K < usize::MAX, lhs.tree.wf(), lhs.tree.root is Some, aff_shape_ok(lhs.a(), lhs.in_dim),
+                    K >= 2, K < usize::MAX, k_two::<K>(), lhs.tree.wf(), lhs.tree.root is Some, aff_shape_ok(lhs.a(), lhs.in_dim),
                 terminals_ok(old(rhs).a(), terminals@, od),
                     0 < __t <= terminals@.len(), terminal_idx == terminals@[__t - 1], rl == lhs.tree.root.unwrap(),
                     rhs.tree.wf(), rhs.tree.root == Some(0usize), rhs.in_dim == old(rhs).in_dim,
                     aff_shape_ok(a_start, rhs.in_dim), pr_outer(lhs.a(), old(rhs).a(), a_start, terminals@, __t - 1),
                     terminal_aff.ok(), terminal_aff.mat.ncols() == rhs.in_dim, terminal_aff.mat.nrows() == od, lhs.in_dim == rhs.in_dim, out_all(lhs.a(), od),
                     pr_inv(lhs.a(), rhs.a(), a_start, kind, pend, None, terminal_idx, rhs.in_dim), pr_stack(kind, pend, stack@),
+                    shape_op(rhs.a(), rhs.in_dim),
                 ensures stack@.len() == 0,
 //@hint loop 2 start
                 proof {
@@ -322,10 +336,12 @@ impl<const K: usize> AffTree<K> {
                     lemma_kid_seq_len(lhs.a()[parent0_idx].children, 0);
                     lemma_kid_seq_members(lhs.a()[parent0_idx].children, 0);
                     lemma_count_zero_no_kids(rhs.a()[parent1_idx], 0);
+                    if !no_kids(lhs.a()[parent0_idx]) { lemma_rows_fit(lhs.a(), lhs.in_dim, parent0_idx, rhs.a()[parent1_idx].value.aff.mat.nrows() as int); }
                 }
+                let ghost p1_val = rhs.a()[parent1_idx].value;
 //@loop 3
                     invariant
-                        K >= 2, K < usize::MAX, lhs.tree.wf(), lhs.tree.root is Some, aff_shape_ok(lhs.a(), lhs.in_dim),
+                        K >= 2, K < usize::MAX, k_two::<K>(), lhs.tree.wf(), lhs.tree.root is Some, aff_shape_ok(lhs.a(), lhs.in_dim),
                 terminals_ok(old(rhs).a(), terminals@, od),
                         0 < __t <= terminals@.len(), terminal_idx == terminals@[__t - 1], rl == lhs.tree.root.unwrap(),
                     rhs.tree.wf(), rhs.tree.root == Some(0usize), rhs.in_dim == old(rhs).in_dim,
@@ -333,6 +349,7 @@ impl<const K: usize> AffTree<K> {
                     terminal_aff.ok(), terminal_aff.mat.ncols() == rhs.in_dim, terminal_aff.mat.nrows() == od, lhs.in_dim == rhs.in_dim, out_all(lhs.a(), od),
                         pr_inv(lhs.a(), rhs.a(), a_start, kind, pend, Some(parent1_idx), terminal_idx, rhs.in_dim), pr_stack(kind, pend, stack@),
                         kind.dom().contains(parent1_idx), kind[parent1_idx] == parent0_idx, !pend.contains(parent1_idx),
+                        shape_op(rhs.a(), rhs.in_dim), rhs.a()[parent1_idx].value == p1_val, !no_kids(lhs.a()[parent0_idx]) ==> rows_fit::<K>(p1_val.aff.mat.nrows() as int),
                         lhs.a().dom().contains(parent0_idx), rhs.a().dom().contains(parent1_idx),
                         0 <= __i <= __kids@.len(), __kids@.len() == kid_seq(lhs.a()[parent0_idx].children, 0).len(), __kids@.len() <= K,
                         n_children0 == __kids@.len(),
@@ -363,6 +380,8 @@ impl<const K: usize> AffTree<K> {
                         }
                         assert(a_add[parent1_idx].children[label as int] == Some(child1_idx)) by { assert(a_add[parent1_idx].children@[label as int] == Some(child1_idx)); }
                         lemma_count_set(a_pre[parent1_idx].children, a_add[parent1_idx].children, label as int, 0);
+                        // the tree handed to the feasibility test is shape-consistent (needed by the real path polytope)
+                        lemma_shape_add(a_pre, a_add, rhs.in_dim, parent1_idx, label, child1_idx);
                     }
 //@hint after label_created = Some(label);
                         proof {
@@ -379,6 +398,7 @@ impl<const K: usize> AffTree<K> {
 //@hint after rhs.tree .merge_child_with_parent(parent1_idx, label_created.unwrap()) .unwrap();
                     proof {
                         lemma_pr_merge(lhs.a(), a_fin, rhs.a(), a_start, kind, pend, terminal_idx, rhs.in_dim, stack@, parent1_idx, label_created.unwrap(), Some(0usize));
+                        lemma_shape_merge(a_fin, rhs.a(), rhs.in_dim, parent1_idx, label_created.unwrap());
                         kind = kind.remove(parent1_idx);
                     }
 //@hint loop 3 after
@@ -410,7 +430,7 @@ impl<const K: usize> AffTree<K> {
 //@bodysub AffTree::<K>::generic_composition_inplace( => AffTree::<K>::gci_sub(
 //@bodysub terminals, $name {}, NoOpVis {} => terminals, Ghost(od)
 //@spec
-    requires K >= 2, K < usize::MAX,
+    requires K >= 2, K < usize::MAX, k_two::<K>(),      // K == 2 (opaque here)
         rhs.tree.wf(), rhs.tree.root is Some, aff_shape_ok(rhs.a(), rhs.in_dim),
         self.tree.wf(), self.tree.root == Some(0usize), aff_shape_ok(self.a(), self.in_dim),
         self.in_dim == rhs.in_dim, out_all(self.a(), od), out_all(rhs.a(), od),
@@ -446,7 +466,7 @@ impl<const K: usize> AffTree<K> {
 //@bodysub let child0 = edg.target_value; => let child0 = &lhs.tree.tree_node(child0_idx).unwrap().value;
 //@bodysub lhs.tree.is_leaf(child0_idx).unwrap() => lhs.tree.tree_node(child0_idx).unwrap().isleaf
 //@spec
-    requires K >= 2, K < usize::MAX,
+    requires K >= 2, K < usize::MAX, k_two::<K>(),      // K == 2 (opaque here)
         lhs.tree.wf(), lhs.tree.root is Some, aff_shape_ok(lhs.a(), lhs.in_dim),
         old(rhs).tree.wf(), old(rhs).tree.root == Some(0usize), aff_shape_ok(old(rhs).a(), old(rhs).in_dim),
         // both operands live on the same input space and produce vectors of the same length
@@ -462,7 +482,7 @@ impl<const K: usize> AffTree<K> {
         proof { lemma_pr_outer_init(lhs.a(), rhs.a(), terminals@, od); }
 //@loop 1
             invariant
-                K >= 2, K < usize::MAX, lhs.tree.wf(), lhs.tree.root is Some, aff_shape_ok(lhs.a(), lhs.in_dim),
+                K >= 2, K < usize::MAX, k_two::<K>(), lhs.tree.wf(), lhs.tree.root is Some, aff_shape_ok(lhs.a(), lhs.in_dim),
                 terminals_ok(old(rhs).a(), terminals@, od),
                 0 <= __t <= terminals@.len(), rl == lhs.tree.root.unwrap(), lhs.in_dim == rhs.in_dim, out_all(lhs.a(), od),
                 rhs.tree.wf(), rhs.tree.root == Some(0usize), rhs.in_dim == old(rhs).in_dim, aff_shape_ok(rhs.a(), rhs.in_dim),
@@ -476,16 +496,18 @@ impl<const K: usize> AffTree<K> {
             proof {
                 broadcast use axiom_array2_shape;
                 lemma_pr_start(lhs.a(), a_start, rhs.a(), rl, terminal_idx, rhs.in_dim);
+                lemma_shape_write(a_start, rhs.a(), rhs.in_dim, terminal_idx);
             }
 //@loop 2
                 invariant
-                    K >= 2, K < usize::MAX, lhs.tree.wf(), lhs.tree.root is Some, aff_shape_ok(lhs.a(), lhs.in_dim),
+                    K >= 2, K < usize::MAX, k_two::<K>(), lhs.tree.wf(), lhs.tree.root is Some, aff_shape_ok(lhs.a(), lhs.in_dim),
                 terminals_ok(old(rhs).a(), terminals@, od),
                     0 < __t <= terminals@.len(), terminal_idx == terminals@[__t - 1], rl == lhs.tree.root.unwrap(),
                     rhs.tree.wf(), rhs.tree.root == Some(0usize), rhs.in_dim == old(rhs).in_dim,
                     aff_shape_ok(a_start, rhs.in_dim), pr_outer(lhs.a(), old(rhs).a(), a_start, terminals@, __t - 1),
                     terminal_aff.ok(), terminal_aff.mat.ncols() == rhs.in_dim, terminal_aff.mat.nrows() == od, lhs.in_dim == rhs.in_dim, out_all(lhs.a(), od),
                     pr_inv(lhs.a(), rhs.a(), a_start, kind, pend, None, terminal_idx, rhs.in_dim), pr_stack(kind, pend, stack@),
+                    shape_op(rhs.a(), rhs.in_dim),
                 ensures stack@.len() == 0,
 //@hint loop 2 start
                 proof {
@@ -494,10 +516,12 @@ impl<const K: usize> AffTree<K> {
                     lemma_kid_seq_len(lhs.a()[parent0_idx].children, 0);
                     lemma_kid_seq_members(lhs.a()[parent0_idx].children, 0);
                     lemma_count_zero_no_kids(rhs.a()[parent1_idx], 0);
+                    if !no_kids(lhs.a()[parent0_idx]) { lemma_rows_fit(lhs.a(), lhs.in_dim, parent0_idx, rhs.a()[parent1_idx].value.aff.mat.nrows() as int); }
                 }
+                let ghost p1_val = rhs.a()[parent1_idx].value;
 //@loop 3
                     invariant
-                        K >= 2, K < usize::MAX, lhs.tree.wf(), lhs.tree.root is Some, aff_shape_ok(lhs.a(), lhs.in_dim),
+                        K >= 2, K < usize::MAX, k_two::<K>(), lhs.tree.wf(), lhs.tree.root is Some, aff_shape_ok(lhs.a(), lhs.in_dim),
                 terminals_ok(old(rhs).a(), terminals@, od),
                         0 < __t <= terminals@.len(), terminal_idx == terminals@[__t - 1], rl == lhs.tree.root.unwrap(),
                     rhs.tree.wf(), rhs.tree.root == Some(0usize), rhs.in_dim == old(rhs).in_dim,
@@ -505,6 +529,7 @@ impl<const K: usize> AffTree<K> {
                     terminal_aff.ok(), terminal_aff.mat.ncols() == rhs.in_dim, terminal_aff.mat.nrows() == od, lhs.in_dim == rhs.in_dim, out_all(lhs.a(), od),
                         pr_inv(lhs.a(), rhs.a(), a_start, kind, pend, Some(parent1_idx), terminal_idx, rhs.in_dim), pr_stack(kind, pend, stack@),
                         kind.dom().contains(parent1_idx), kind[parent1_idx] == parent0_idx, !pend.contains(parent1_idx),
+                        shape_op(rhs.a(), rhs.in_dim), rhs.a()[parent1_idx].value == p1_val, !no_kids(lhs.a()[parent0_idx]) ==> rows_fit::<K>(p1_val.aff.mat.nrows() as int),
                         lhs.a().dom().contains(parent0_idx), rhs.a().dom().contains(parent1_idx),
                         0 <= __i <= __kids@.len(), __kids@.len() == kid_seq(lhs.a()[parent0_idx].children, 0).len(), __kids@.len() <= K,
                         n_children0 == __kids@.len(),
@@ -535,6 +560,8 @@ impl<const K: usize> AffTree<K> {
                         }
                         assert(a_add[parent1_idx].children[label as int] == Some(child1_idx)) by { assert(a_add[parent1_idx].children@[label as int] == Some(child1_idx)); }
                         lemma_count_set(a_pre[parent1_idx].children, a_add[parent1_idx].children, label as int, 0);
+                        // the tree handed to the feasibility test is shape-consistent (needed by the real path polytope)
+                        lemma_shape_add(a_pre, a_add, rhs.in_dim, parent1_idx, label, child1_idx);
                     }
 //@hint after label_created = Some(label);
                         proof {
@@ -551,6 +578,7 @@ impl<const K: usize> AffTree<K> {
 //@hint after rhs.tree .merge_child_with_parent(parent1_idx, label_created.unwrap()) .unwrap();
                     proof {
                         lemma_pr_merge(lhs.a(), a_fin, rhs.a(), a_start, kind, pend, terminal_idx, rhs.in_dim, stack@, parent1_idx, label_created.unwrap(), Some(0usize));
+                        lemma_shape_merge(a_fin, rhs.a(), rhs.in_dim, parent1_idx, label_created.unwrap());
                         kind = kind.remove(parent1_idx);
                     }
 //@hint loop 3 after
@@ -582,7 +610,7 @@ impl<const K: usize> AffTree<K> {
 //@bodysub AffTree::<K>::generic_composition_inplace( => AffTree::<K>::gci_mul(
 //@bodysub terminals, $name {}, NoOpVis {} => terminals, Ghost(od)
 //@spec
-    requires K >= 2, K < usize::MAX,
+    requires K >= 2, K < usize::MAX, k_two::<K>(),      // K == 2 (opaque here)
         rhs.tree.wf(), rhs.tree.root is Some, aff_shape_ok(rhs.a(), rhs.in_dim),
         self.tree.wf(), self.tree.root == Some(0usize), aff_shape_ok(self.a(), self.in_dim),
         self.in_dim == rhs.in_dim, out_all(self.a(), od), out_all(rhs.a(), od),
@@ -618,7 +646,7 @@ impl<const K: usize> AffTree<K> {
 //@bodysub let child0 = edg.target_value; => let child0 = &lhs.tree.tree_node(child0_idx).unwrap().value;
 //@bodysub lhs.tree.is_leaf(child0_idx).unwrap() => lhs.tree.tree_node(child0_idx).unwrap().isleaf
 //@spec
-    requires K >= 2, K < usize::MAX,
+    requires K >= 2, K < usize::MAX, k_two::<K>(),      // K == 2 (opaque here)
         lhs.tree.wf(), lhs.tree.root is Some, aff_shape_ok(lhs.a(), lhs.in_dim),
         old(rhs).tree.wf(), old(rhs).tree.root == Some(0usize), aff_shape_ok(old(rhs).a(), old(rhs).in_dim),
         // both operands live on the same input space and produce vectors of the same length
@@ -634,7 +662,7 @@ impl<const K: usize> AffTree<K> {
         proof { lemma_pr_outer_init(lhs.a(), rhs.a(), terminals@, od); }
 //@loop 1
             invariant
-                K >= 2, K < usize::MAX, lhs.tree.wf(), lhs.tree.root is Some, aff_shape_ok(lhs.a(), lhs.in_dim),
+                K >= 2, K < usize::MAX, k_two::<K>(), lhs.tree.wf(), lhs.tree.root is Some, aff_shape_ok(lhs.a(), lhs.in_dim),
                 terminals_ok(old(rhs).a(), terminals@, od),
                 0 <= __t <= terminals@.len(), rl == lhs.tree.root.unwrap(), lhs.in_dim == rhs.in_dim, out_all(lhs.a(), od), nonzero_leaves(lhs.a()),
                 rhs.tree.wf(), rhs.tree.root == Some(0usize), rhs.in_dim == old(rhs).in_dim, aff_shape_ok(rhs.a(), rhs.in_dim),
@@ -648,16 +676,18 @@ impl<const K: usize> AffTree<K> {
             proof {
                 broadcast use axiom_array2_shape;
                 lemma_pr_start(lhs.a(), a_start, rhs.a(), rl, terminal_idx, rhs.in_dim);
+                lemma_shape_write(a_start, rhs.a(), rhs.in_dim, terminal_idx);
             }
 //@loop 2
                 invariant
-                    K >= 2, K < usize::MAX, lhs.tree.wf(), lhs.tree.root is Some, aff_shape_ok(lhs.a(), lhs.in_dim),
+                    K >= 2, K < usize::MAX, k_two::<K>(), lhs.tree.wf(), lhs.tree.root is Some, aff_shape_ok(lhs.a(), lhs.in_dim),
                 terminals_ok(old(rhs).a(), terminals@, od),
                     0 < __t <= terminals@.len(), terminal_idx == terminals@[__t - 1], rl == lhs.tree.root.unwrap(),
                     rhs.tree.wf(), rhs.tree.root == Some(0usize), rhs.in_dim == old(rhs).in_dim,
                     aff_shape_ok(a_start, rhs.in_dim), pr_outer(lhs.a(), old(rhs).a(), a_start, terminals@, __t - 1),
                     terminal_aff.ok(), terminal_aff.mat.ncols() == rhs.in_dim, terminal_aff.mat.nrows() == od, lhs.in_dim == rhs.in_dim, out_all(lhs.a(), od), nonzero_leaves(lhs.a()),
                     pr_inv(lhs.a(), rhs.a(), a_start, kind, pend, None, terminal_idx, rhs.in_dim), pr_stack(kind, pend, stack@),
+                    shape_op(rhs.a(), rhs.in_dim),
                 ensures stack@.len() == 0,
 //@hint loop 2 start
                 proof {
@@ -666,10 +696,12 @@ impl<const K: usize> AffTree<K> {
                     lemma_kid_seq_len(lhs.a()[parent0_idx].children, 0);
                     lemma_kid_seq_members(lhs.a()[parent0_idx].children, 0);
                     lemma_count_zero_no_kids(rhs.a()[parent1_idx], 0);
+                    if !no_kids(lhs.a()[parent0_idx]) { lemma_rows_fit(lhs.a(), lhs.in_dim, parent0_idx, rhs.a()[parent1_idx].value.aff.mat.nrows() as int); }
                 }
+                let ghost p1_val = rhs.a()[parent1_idx].value;
 //@loop 3
                     invariant
-                        K >= 2, K < usize::MAX, lhs.tree.wf(), lhs.tree.root is Some, aff_shape_ok(lhs.a(), lhs.in_dim),
+                        K >= 2, K < usize::MAX, k_two::<K>(), lhs.tree.wf(), lhs.tree.root is Some, aff_shape_ok(lhs.a(), lhs.in_dim),
                 terminals_ok(old(rhs).a(), terminals@, od),
                         0 < __t <= terminals@.len(), terminal_idx == terminals@[__t - 1], rl == lhs.tree.root.unwrap(),
                     rhs.tree.wf(), rhs.tree.root == Some(0usize), rhs.in_dim == old(rhs).in_dim,
@@ -677,6 +709,7 @@ impl<const K: usize> AffTree<K> {
                     terminal_aff.ok(), terminal_aff.mat.ncols() == rhs.in_dim, terminal_aff.mat.nrows() == od, lhs.in_dim == rhs.in_dim, out_all(lhs.a(), od), nonzero_leaves(lhs.a()),
                         pr_inv(lhs.a(), rhs.a(), a_start, kind, pend, Some(parent1_idx), terminal_idx, rhs.in_dim), pr_stack(kind, pend, stack@),
                         kind.dom().contains(parent1_idx), kind[parent1_idx] == parent0_idx, !pend.contains(parent1_idx),
+                        shape_op(rhs.a(), rhs.in_dim), rhs.a()[parent1_idx].value == p1_val, !no_kids(lhs.a()[parent0_idx]) ==> rows_fit::<K>(p1_val.aff.mat.nrows() as int),
                         lhs.a().dom().contains(parent0_idx), rhs.a().dom().contains(parent1_idx),
                         0 <= __i <= __kids@.len(), __kids@.len() == kid_seq(lhs.a()[parent0_idx].children, 0).len(), __kids@.len() <= K,
                         n_children0 == __kids@.len(),
@@ -707,6 +740,8 @@ impl<const K: usize> AffTree<K> {
                         }
                         assert(a_add[parent1_idx].children[label as int] == Some(child1_idx)) by { assert(a_add[parent1_idx].children@[label as int] == Some(child1_idx)); }
                         lemma_count_set(a_pre[parent1_idx].children, a_add[parent1_idx].children, label as int, 0);
+                        // the tree handed to the feasibility test is shape-consistent (needed by the real path polytope)
+                        lemma_shape_add(a_pre, a_add, rhs.in_dim, parent1_idx, label, child1_idx);
                     }
 //@hint after label_created = Some(label);
                         proof {
@@ -723,6 +758,7 @@ impl<const K: usize> AffTree<K> {
 //@hint after rhs.tree .merge_child_with_parent(parent1_idx, label_created.unwrap()) .unwrap();
                     proof {
                         lemma_pr_merge(lhs.a(), a_fin, rhs.a(), a_start, kind, pend, terminal_idx, rhs.in_dim, stack@, parent1_idx, label_created.unwrap(), Some(0usize));
+                        lemma_shape_merge(a_fin, rhs.a(), rhs.in_dim, parent1_idx, label_created.unwrap());
                         kind = kind.remove(parent1_idx);
                     }
 //@hint loop 3 after
@@ -754,7 +790,7 @@ impl<const K: usize> AffTree<K> {
 //@bodysub AffTree::<K>::generic_composition_inplace( => AffTree::<K>::gci_div(
 //@bodysub terminals, $name {}, NoOpVis {} => terminals, Ghost(od)
 //@spec
-    requires K >= 2, K < usize::MAX,
+    requires K >= 2, K < usize::MAX, k_two::<K>(),      // K == 2 (opaque here)
         rhs.tree.wf(), rhs.tree.root is Some, aff_shape_ok(rhs.a(), rhs.in_dim),
         self.tree.wf(), self.tree.root == Some(0usize), aff_shape_ok(self.a(), self.in_dim),
         self.in_dim == rhs.in_dim, out_all(self.a(), od), out_all(rhs.a(), od), nonzero_leaves(rhs.a()),
